@@ -200,6 +200,11 @@ def make_distance_matrix_from_adjacency_matrix(AG):
         # csgraph routines reject some sparse formats (e.g. COO for graphs
         # with fewer than 3 vertices), so work on CSR throughout
         AG = sps.csr_matrix(AG)
+    else:
+        # scipy's Floyd-Warshall (chosen for dense graphs) needs a
+        # C-contiguous array; a transposed or Fortran-ordered adjacency
+        # matrix is not
+        AG = np.ascontiguousarray(AG)
 
     # Compile distance matrix of the graph based on its shortest path
     # lengths.
